@@ -1,6 +1,6 @@
 (* Proofs about Chart/Archive.v and the joins of Chart/Paths.v (C16). *)
 From Coq Require Import List String Ascii Bool Arith ZArith Lia ZifyBool.
-From Helm Require Import Chart.Paths Chart.PathsProofs Chart.Archive.
+From Helm Require Import Chart.Paths Chart.PathsProofs Chart.Archive Gen.Limits.
 Import ListNotations.
 Local Open Scope string_scope.
 
@@ -252,6 +252,15 @@ Proof.
   assert (f :: fs0 <> []) as Hne by discriminate.
   assert (filter counted (ts_entries s) <> []) as Hne2 by (intro Hc; apply H5 in Hc; congruence).
   repeat split; auto.
+Qed.
+
+Lemma size_budget_default s fs :
+  Forall wf_entry (ts_entries s) ->
+  load_archive_files max_decompressed_chart_size max_decompressed_file_size s = inr fs ->
+  Forall (fun f => slen (f_data f) <= max_decompressed_file_size) fs /\
+  sumZ (map (fun f => slen (f_data f)) fs) < max_decompressed_chart_size.
+Proof.
+  intros H1 H2. destruct (size_budget _ _ _ _ H1 H2) as (A & B & _). split; assumption.
 Qed.
 
 Lemma reads_bounded maxt maxf s :
